@@ -106,6 +106,15 @@ fn read_all(vm: &crate::vm::interpreter::VM, pkt: &Rc<crate::builtins::pcap::Pca
             out.push((format!("{}.{}", layer, f.name), observed_text(f.kind, &got)));
         }
     }
+    // the layer names the frame does NOT use, read at every level: such a read must never disturb the
+    // materialised chain (its result is not compared: it is null, or an error where the name does not exist)
+    for (_, _, path) in &fr.layers {
+        for other in [P::Vlan, P::Ipv4, P::Ipv6, P::Udp, P::Tcp] {
+            if let Ok(lo) = walk(vm, pkt, path) {
+                let _ = vm.exec_prop_expr(lo, other as u8, None, 1);
+            }
+        }
+    }
     for (name, prop) in [("sec", P::Sec), ("usec", P::USec), ("caplen", P::Caplen), ("wirelen", P::Wirelen)] {
         let got = vm.exec_prop_expr(Rc::new(Object::Packet(pkt.clone())), prop as u8, None, 1).map_err(|e| e.msg)?;
         out.push((format!("packet.{}", name), canon(&got)));
